@@ -937,9 +937,12 @@ loop:
 		select {
 		case <-done:
 			told = classify(commitErr)
+			// returning and dying are atomic with respect to each other in the trace (as sends are)
+			g.mu.Lock()
 			if !g.frozen.Load() {
 				e.trace.add(Event{Kind: "told", Client: "c1", F: map[string]interface{}{"start": S, "res": told, "finish": finish, "commit_ts": txn.CommitTS(), "err": fmt.Sprint(commitErr)}})
 			}
+			g.mu.Unlock()
 			break loop
 		case <-time.After(2 * time.Millisecond):
 			if g.frozen.Load() && g.inflight.Load() == 0 {
